@@ -251,7 +251,7 @@ func (c *Ctx) bufferCheckRule(eng *ranges.Engine, ep *EntryPoints) int {
 			}
 		}
 	}
-	c.C.Floor("BUFFER-CHECK", n-c.controlCount("BUFFER-CHECK"), 8)
+	c.C.Floor("BUFFER-CHECK", n-c.controlCount("BUFFER-CHECK"), 5)
 	return n
 }
 
